@@ -421,6 +421,7 @@ def free_bookkeeping(norb=2, nu=1, nd=1):
     un-normalised product); k consecutive steps follow by induction since norms only ever multiplies"""
     t0 = time.time()
     H.setup_repo()
+    sfx = "" if (norb, nu, nd) == (2, 1, 1) else f"[norb={norb},nel={nu}+{nd}]"
     import jax
     import jax.numpy as jnp
     from ad_afqmc import propagation, wavefunctions as wf
@@ -479,11 +480,11 @@ def free_bookkeeping(norb=2, nu=1, nd=1):
     fns = ["propagation.propagator_unrestricted.propagate_free", "propagation.propagator_unrestricted._orthogonalize_walkers", "linalg_utils.qr_vmap_uhf"]
     detR = det_sym(R[0][0]) * det_sym(R[1][0])
     nrm_new = hn["V"].s[0] * detR
-    res = [H.identity("C05.fp.norm", np.asarray(out["norms"], dtype=object).reshape(-1), np.array([nrm_new], dtype=object), functions=fns, inputs=inp, t0=t0,
+    res = [H.identity("C05.fp.norm" + sfx, np.asarray(out["norms"], dtype=object).reshape(-1), np.array([nrm_new], dtype=object), functions=fns, inputs=inp, t0=t0,
                       note="norms' = norms * det R_up * det R_dn"),
-           H.identity("C05.fp.walkers", np.concatenate([np.asarray(out["walkers"][0], dtype=object).reshape(-1), np.asarray(out["walkers"][1], dtype=object).reshape(-1)]),
+           H.identity("C05.fp.walkers" + sfx, np.concatenate([np.asarray(out["walkers"][0], dtype=object).reshape(-1), np.asarray(out["walkers"][1], dtype=object).reshape(-1)]),
                       np.concatenate([hq[0]["V"].s.reshape(-1), hq[1]["V"].s.reshape(-1)]), functions=fns, inputs=inp, t0=t0, note="stored walkers are the orthonormal Q factors"),
-           H.identity("C05.fp.overlap", np.asarray(out["overlaps"], dtype=object).reshape(-1), np.array([hon["V"].s[0] * nrm_new], dtype=object), functions=fns, inputs=inp, t0=t0,
+           H.identity("C05.fp.overlap" + sfx, np.asarray(out["overlaps"], dtype=object).reshape(-1), np.array([hon["V"].s[0] * nrm_new], dtype=object), functions=fns, inputs=inp, t0=t0,
                       note="overlaps' = overlap(Q) * norms'  (= overlap of the un-normalised product, by the covariance contract of C13)")]
     if any(o["status"] == REFUTED for o in res):
         try:
@@ -498,7 +499,7 @@ def free_bookkeeping(norb=2, nu=1, nd=1):
                 if o["status"] == REFUTED:
                     o["witness"] = dict(o.get("witness") or {}, native_error=repr(e)[:300])
     ok_arg = len(calls["ov"]) >= 1 and all((a - b).iszero() for a, b in zip(calls["ov"][0][0].reshape(-1), hq[0]["V"].s.reshape(-1)))
-    res.append(ob("C05.fp.overlap.arg", DISCHARGED if ok_arg else REFUTED, kind="bounded", backend="ring", functions=fns,
+    res.append(ob("C05.fp.overlap.arg" + sfx, DISCHARGED if ok_arg else REFUTED, kind="bounded", backend="ring", functions=fns,
                   detail="the overlap is evaluated on the orthonormalised walkers returned by the QR"))
     return res
 
